@@ -949,6 +949,16 @@ func main() {
 		defer slowWg.Done()
 		expiredIdleWindows(rep.Pick(6, 40))
 	}()
+	slowWg.Add(1)
+	go func() {
+		defer slowWg.Done()
+		silentStagger(rep.Pick(3, 12))()
+	}()
+	slowWg.Add(1)
+	go func() {
+		defer slowWg.Done()
+		realMuteUnbounded()
+	}()
 	rep.Count("slow_cases(own timeouts expire naturally)", int64(len(slow)))
 	rep.Count("fast_cases", int64(len(fast)))
 	rep.Count("combinations_statically_unreachable(not run)", int64(skipped))
